@@ -1,9 +1,140 @@
-From PM.theories Require Import Base Expr Client.
+(* Props/C13.v — Client transactions end in bounded time with a result and recover.
+   ONLY statements.  [code] is the record regenerated from pymodbus/transaction.py on every run
+   (retry loop as a statement list, `retries or 0`, getNextTID, sizes, caught exceptions);
+   [execute code FS F] is the model of BaseModbusClient.execute + ModbusTransactionManager.execute
+   over an arbitrary framer [F] (processIncomingPacket / resetFrame / buildPacket) and an arbitrary
+   per-call transport script.  Time is virtual: one script element per transport call. *)
+From PM.theories Require Import Base Expr Client CorrClient.
 From PM.Generated Require Import GenClient.
 From PM.proofs Require Import Client_proofs.
 Open Scope list_scope.
 Open Scope Z_scope.
 
-Theorem C13_tid_wrap : forall t, 0 <= t -> next_tid code t = (t + 1) mod 65536.
-Proof. exact next_tid_mod. Qed.
-Print Assumptions C13_tid_wrap.
+(* the property as given (kept visible; it does NOT hold of the unchanged tree: see the _refuted theorems) *)
+Definition C13_full_statement : Prop :=
+  forall FS (F : framer FS) c st rq sc st' o,
+    0 <= retries_given c -> execute code FS F c st rq sc = (st', o) ->
+    sends_of (o_calls o) <= 1 + retries_given c /\
+    match o_res o with RReply _ | RErr _ | RBroadcast => True
+                  | RRaise e => e = ConnectionExc /\ s_conn st' = false | _ => False end.
+
+(* at most 1 + retries frames are written, whatever the transport does, for every prior state;
+   retries is the keyword as given (0 stays 0; not given = 3) *)
+Theorem C13_transmissions : forall FS (F : framer FS) c st rq sc st' o,
+  0 <= retries_given c -> execute code FS F c st rq sc = (st', o) ->
+  sends_of (o_calls o) <= 1 + retries_given c.
+Proof. exact execute_sends. Qed.
+Print Assumptions C13_transmissions.
+
+(* the retry loop of the generated skeleton terminates for every script: the fuel is never exhausted *)
+Theorem C13_terminates : forall FS (F : framer FS) c st rq sc,
+  o_res (snd (execute code FS F c st rq sc)) <> RStuck.
+Proof. exact execute_not_stuck. Qed.
+Print Assumptions C13_terminates.
+
+(* a reply or an error object, never an exception, unless the connection cannot be established —
+   PARTIAL: for non-ASCII framings and framers whose processIncomingPacket raises only ModbusIOException *)
+Theorem C13_no_raise_partial : forall FS (F : framer FS) c st rq sc st' o,
+  s_tx st = [] -> c_framing c <> FAscii -> framer_raises_io FS F ->
+  execute code FS F c st rq sc = (st', o) ->
+  match o_res o with
+  | RReply _ | RErr _ | RBroadcast => True
+  | RRaise e => e = ConnectionExc /\ s_conn st' = false
+  | RNone | RStuck => False
+  end.
+Proof. exact execute_no_raise. Qed.
+Print Assumptions C13_no_raise_partial.
+
+(* … and on the ASCII framing a ValueError escapes (witness: bytes ':zz\xff\x00', recorded real framer) *)
+Theorem C13_no_raise_refuted_ascii :
+  exists (T : ftable) c st rq sc,
+    s_tx st = [] /\ o_res (snd (execute code Z (table_framer T) c st rq sc)) = RRaise ValueError.
+Proof. exact no_raise_refuted_ascii. Qed.
+Print Assumptions C13_no_raise_refuted_ascii.
+
+(* … and when processIncomingPacket delivers and then raises, the next call can return None *)
+Theorem C13_none_refuted :
+  exists (T : ftable) c st rq sc1 sc2,
+    s_tx st = [] /\
+    let '(st1, o1) := execute code Z (table_framer T) c st rq sc1 in
+    o_res o1 = RErr None /\ s_tx st1 <> [] /\
+    o_res (snd (execute code Z (table_framer T) c st1 rq sc2)) = RNone.
+Proof. exact none_refuted. Qed.
+Print Assumptions C13_none_refuted.
+
+(* invariant over all histories: empty transaction table, transaction id in range and advanced by
+   (t + 1) mod 65536 — given that a raising processIncomingPacket has delivered nothing *)
+Theorem C13_inv : forall FS (F : framer FS) c st rq sc st' o,
+  s_tx st = [] -> tid_ok (s_tid st) -> proc_clean FS F ->
+  execute code FS F c st rq sc = (st', o) ->
+  s_tx st' = [] /\ tid_ok (s_tid st') /\ (s_tid st' = s_tid st \/ s_tid st' = (s_tid st + 1) mod 65536).
+Proof. exact execute_inv. Qed.
+Print Assumptions C13_inv.
+
+(* after ANY script of faults the next call over a healthy transport returns its own reply *)
+Theorem C13_ready : forall FS (F : framer FS) c st rq1 faults st1 o1 rq reply sc rest m,
+  s_tx st = [] -> tid_ok (s_tid st) -> proc_clean FS F ->
+  execute code FS F c st rq1 faults = (st1, o1) ->
+  c_bcast c && (r_unit rq =? 0) = false -> 0 <= retries_given c -> reply <> [] ->
+  (c_roi c = true -> exists mb, decode_data 7 (c_framing c) reply = Ok mb /\ mb_unit mb = Some (r_unit rq)) ->
+  reset_empties FS F -> conformant_frame FS F reply (r_unit rq) m ->
+  serves (c_framing c) (exp_of c rq) (full_of FS c st1 rq) reply sc ->
+  exists st2 o2,
+    execute code FS F c st1 rq ((if s_conn st1 then [] else [Nothing]) ++ attempt true sc ++ rest) = (st2, o2)
+    /\ o_res o2 = RReply m /\ s_tx st2 = [] /\ s_tid st2 = (s_tid st1 + 1) mod 65536.
+Proof. exact execute_ready. Qed.
+Print Assumptions C13_ready.
+
+(* retry_on_empty: after j <= retries empty replies (each: frame written, nothing read) the valid reply is returned *)
+Theorem C13_retry_on_empty_honoured : forall FS (F : framer FS) c st rq reply sc rest m (j : nat),
+  s_tx st = [] -> c_bcast c && (r_unit rq =? 0) = false ->
+  0 <= retries_given c -> Z.of_nat j <= retries_given c -> (j = O \/ c_roe c = true) ->
+  reply <> [] ->
+  (c_roi c = true -> exists mb, decode_data 7 (c_framing c) reply = Ok mb /\ mb_unit mb = Some (r_unit rq)) ->
+  reset_empties FS F -> conformant_frame FS F reply (r_unit rq) m ->
+  serves (c_framing c) (exp_of c rq) (snd (after_empties j true (full_of FS c st rq))) reply sc ->
+  exists st' o,
+    execute code FS F c st rq
+      ((if s_conn st then [] else [Nothing]) ++ empties j true (full_of FS c st rq)
+         ++ attempt (fst (after_empties j true (full_of FS c st rq))) sc ++ rest) = (st', o)
+    /\ o_res o = RReply m /\ s_tx st' = [] /\ s_tid st' = next_tid code (s_tid st).
+Proof. exact execute_empties_then_reply. Qed.
+Print Assumptions C13_retry_on_empty_honoured.
+
+(* retry_on_invalid: after |l| <= retries foreign replies (another unit answers) the valid reply is returned *)
+Theorem C13_retry_on_invalid_honoured : forall FS (F : framer FS) c st rq reply sc rest m (l : list (bytes * list tev)),
+  s_tx st = [] -> c_bcast c && (r_unit rq =? 0) = false ->
+  0 <= retries_given c -> zlen l <= retries_given c -> (l = [] \/ c_roi c = true) ->
+  reply <> [] ->
+  (c_roi c = true -> exists mb, decode_data 7 (c_framing c) reply = Ok mb /\ mb_unit mb = Some (r_unit rq)) ->
+  reset_empties FS F -> conformant_frame FS F reply (r_unit rq) m ->
+  foreign_ok (env_of_call FS c st rq) (full_of FS c st rq) l ->
+  serves (c_framing c) (exp_of c rq) (snd (after_foreign l true (full_of FS c st rq))) reply sc ->
+  exists st' o,
+    execute code FS F c st rq
+      ((if s_conn st then [] else [Nothing]) ++ foreign_script l true
+         ++ attempt (fst (after_foreign l true (full_of FS c st rq))) sc ++ rest) = (st', o)
+    /\ o_res o = RReply m /\ s_tx st' = [] /\ s_tid st' = next_tid code (s_tid st).
+Proof. exact execute_foreign_then_reply. Qed.
+Print Assumptions C13_retry_on_invalid_honoured.
+
+(* ModbusTcpClient._recv's deadline loop, under the hypothesis deadline_progress (each iteration receives
+   >= 1 byte or advances the clock by >= delta > 0): it ends within size + ceil(timeout/delta) iterations
+   and never returns more than it was asked for *)
+Theorem C13_tcp_recv_terminates : forall delta, 0 < delta ->
+  forall s now timeout ticks b,
+  0 < s -> Forall (progress delta) ticks -> 0 <= b -> timeout < b * delta -> s + b <= zlen ticks ->
+  exists bs, tcp_recv (Some s) now timeout ticks = Some bs /\ zlen bs <= s.
+Proof. exact tcp_recv_terminates. Qed.
+Print Assumptions C13_tcp_recv_terminates.
+
+(* the hypotheses of the theorems above are satisfiable: tid wraps 65535 -> 0, two empty replies, retries = 2 *)
+Example C13_nonvacuous :
+  exists st' o,
+    execute code unit demo_tcp cfg_retry (Build_cstate 65535 [] tt [] false) rq_rh
+      ([Nothing] ++ empties 2 true false
+         ++ attempt false [Data (firstn 8 (reply_rh 0)); Data (skipn 8 (reply_rh 0))] ++ [])
+      = (st', o)
+    /\ o_res o = RReply {| m_tid := 0; m_uid := 5; m_fc := 3; m_id := 0 |} /\ s_tx st' = [] /\ s_tid st' = 0.
+Proof. exact retry_example. Qed.
+Print Assumptions C13_nonvacuous.
